@@ -216,6 +216,15 @@ From NV Require Import Scalar.Ops Model.Common Model.Basis Model.Knots Model.Kno
   Proofs.GenTieLib Proofs.GenTieKnots Proofs.GenTieSpan Proofs.GenTieBasis Proofs.GenTieBasisOne
   Proofs.GenTieDersOne Proofs.GenTieDersLib Proofs.GenTieDers Proofs.GenTieKnotIns.
 Local Open Scope nat_scope.
+From NV Require Import Gen.PreludeExt Gen.LinalgMat Proofs.GenTieMat Proofs.GenTieMatSolve Proofs.GenTieBinom.
+From NV Require Import Gen.PreludeExt Gen.HelpersB Proofs.GenTieKnotRemove.
+From NV Require Import Gen.HelpersB Proofs.GenTieElev.
+From NV Require Import Model.Geom2D Model.Voxel Gen.PreludeExt Gen.LinalgGeom Gen.Voxelize Proofs.GenTieGeom Proofs.GenTieVoxel
+  Proofs.GenTieHull.
+From NV Require Import Model.Hull Gen.Utilities Proofs.GenTieBBox.
+From NV Require Import Model.Fit Gen.Fitting Proofs.GenTieFit.
+From NV Require Import Model.Derivs Proofs.GenTieDerivCpts.
+From NV Require Import Proofs.GenTieArr4 Proofs.GenTieDerivSurf.
 
 From NV Require Import Model.KnotRefine Proofs.GenTieRefine.
 
@@ -258,3 +267,4 @@ Example C05_gen_nonvacuous :
     (KnotRefine.knot_refinement Qops (Helpers.find_multiplicity__default_tol Qops) true 3 [0; 0; 0; 0; 1#2; 1; 1; 1; 1]%Q
        [[0; 0]; [1#2; 1]; [2; 2]; [7#2; 1]; [4; 0]]%Q None [] 1).
 Proof. vm_compute; reflexivity. Qed.
+
